@@ -518,6 +518,12 @@ impl Exec {
         for _ in 0..2 {
             self.poll(5);
         }
+        // ... and an operation that ran on a pool thread gives its buffer back when that thread
+        // drops it, a moment after the job ended
+        if !crate::drv::soup::wait_ops_released(Duration::from_millis(3000)) {
+            self.census_skipped = true;
+            return;
+        }
         self.check_held("before-census");
         self.held.clear();
         // drain what is still sitting in the socket so that reads below see fresh data only
